@@ -417,6 +417,15 @@ func (rg *registry) pushRaw(v LValue) {
 	rg.top++
 }
 
+// pushAlways pushes v even when the registry is full: an error value on its way out (raiseError's message, the
+// error a dead coroutine hands to its resumer). The array may get one cell longer; the limit does not move.
+func (rg *registry) pushAlways(v LValue) {
+	if rg.IsFull() {
+		rg.forceResize(rg.top + 1)
+	}
+	rg.pushRaw(v)
+}
+
 func (rg *registry) SetTop(topi int) { // +inline-start
 	// +inline-call rg.checkSize topi
 	oldtopi := rg.top
@@ -658,12 +667,8 @@ func (ls *LState) raiseError(level int, format string, args ...interface{}) {
 	if level > 0 {
 		message = fmt.Sprintf("%v %v", ls.where(level-1, true), message)
 	}
-	if ls.reg.IsFull() {
-		// if the registry is full then it won't be possible to push a value, in this case, force a larger array
-		// (the limit enforced on programs stays as it is)
-		ls.reg.forceResize(ls.reg.Top() + 1)
-	}
-	ls.reg.pushRaw(LString(message))
+	// a full registry gets a larger array for the message (the limit enforced on programs stays as it is)
+	ls.reg.pushAlways(LString(message))
 	ls.Panic(ls)
 }
 
